@@ -1647,126 +1647,116 @@ def run_share(m):
     if a0 is None:
         return None
     sh = ShadowStore(ax)
-    axes, series = [a0], []
+    axes, series = [a0], []          # the real objects (None: the construction raised), at the positions the INTENDED allocation gives them
     toks, outs, trace = [], [], []
     iops = {'uadd': operator.iadd, 'usub': operator.isub, 'umul': operator.imul, 'udiv': operator.itruediv}
+
+    def attempt(f):
+        try:
+            return f(), 'ok'
+        except Exception as e:  # noqa
+            from common import err_kind
+            return None, 'err ' + err_kind(e)
 
     def read_time(sid):
         """the axis object `series[sid].time` hands out, registered at the position the intended allocation gives it"""
         pid, first = sh.time_id(sid)
-        o = series[sid].time
+        o, _ = attempt(lambda: series[sid].time)
         if first:
             axes.append(o)
         return pid, o
 
-    def new_series(obj, data, own):
-        series.append(obj)
-        sh.series.append({'data': data, 'own': own, 'time': None})
+    def utok(a):
+        return 'U:%s:%d:%d:%d:%d' % (a['unit'], a['t0'], a['dt'], a['n'], a['n'] * a['dt'])
     for cm in m['cmds']:
         c = cm['c']
         rec = {'cmd': cm}
         if c == 'N':
             d, a = cm['data'], sh.axes[cm['ax']]
             toks.append('N %d %s' % (cm['ax'], data_tok(d)))
-            out = call(lambda: (new_series(t.TimeSeries(np.array(d['vals'], dtype=np.int64).reshape(d['shape']), time=axes[cm['ax']],
-                                                         time_unit=axes[cm['ax']].time_unit), d, _own_of(a)), 'ok')[1])
+            obj, out = attempt(lambda: t.TimeSeries(np.array(d['vals'], dtype=np.int64).reshape(d['shape']), time=axes[cm['ax']],
+                                                    time_unit=axes[cm['ax']].time_unit))
+            series.append(obj)
+            sh.series.append({'data': d, 'own': _own_of(a), 'time': None})
         elif c == 'T':
             toks.append('T %d' % cm['sid'])
-            out = call(lambda: 'ok ' + _u_tok(read_time(cm['sid'])[1]))
-            rec['want'] = 'ok U:%s:%d:%d:%d:%d' % ((lambda a: (a['unit'], a['t0'], a['dt'], a['n'], a['n'] * a['dt']))(sh.axis_of(cm['sid'])))
-        elif c in ('Y', 'A'):
+            _, o = read_time(cm['sid'])
+            out = 'err missing-object' if o is None else 'ok ' + _u_tok(o)
+            rec['want'] = 'ok ' + utok(sh.axis_of(cm['sid']))
+        elif c in ('Y', 'A', 'D'):
             sid = cm['sid']
             k = cm.get('k', 0)
-            toks.append('Y %d' % sid if c == 'Y' else 'A %d %d' % (sid, k))
-
-            def f():
-                read_time(sid)
-                src = series[sid]
-                if c == 'Y':
-                    new = src.copy()
-                else:
-                    new = {'add': lambda: src + k, 'sub': lambda: src - (-k), 'radd': lambda: src + np.int64(k)}[cm['how']]()
-                new_series(new, _sh_data_map(sh.series[sid]['data'], lambda v: v + k), _own_of(sh.axis_of(sid)))
-                return 'ok'
-            out = call(f)
-        elif c == 'D':
-            sid, e = cm['sid'], cm['e']
-            toks.append('D %d %s' % (sid, epoch_toks(e)))
-
-            def f():
-                read_time(sid)
-                a = sh.axis_of(sid)
+            read_time(sid)
+            a = sh.axis_of(sid)
+            src = series[sid]
+            if c == 'Y':
+                toks.append('Y %d' % sid)
+                obj, out = attempt(lambda: src.copy())
+                sh.series.append({'data': sh.series[sid]['data'], 'own': _own_of(a), 'time': None})
+            elif c == 'A':
+                toks.append('A %d %d' % (sid, k))
+                obj, out = attempt({'add': lambda: src + k, 'sub': lambda: src - (-k), 'radd': lambda: src + np.int64(k)}[cm['how']])
+                sh.series.append({'data': _sh_data_map(sh.series[sid]['data'], lambda v: v + k), 'own': _own_of(a), 'time': None})
+            else:
+                e = cm['e']
+                toks.append('D %d %s' % (sid, epoch_toks(e)))
                 ea = epoch_actual(e)
                 idx = [i for i, tt in enumerate(_sh_times(a)) if ea[1][0] <= tt < ea[2][0]]
-                new = series[sid].during(build_epoch(e))
-                new_series(new, _sh_data_sel(sh.series[sid]['data'], idx), dict(_own_of(a), t0=ea[4], n=len(idx), dt=sh.series[sid]['own']['dt']))
-                return 'ok'
-            out = call(f)
+                obj, out = attempt(lambda: src.during(build_epoch(e)))
+                sh.series.append({'data': _sh_data_sel(sh.series[sid]['data'], idx), 'time': None,
+                                  'own': dict(_own_of(a), t0=ea[4], n=len(idx), dt=sh.series[sid]['own']['dt'])})
+            series.append(obj)
         elif c == 'X':
             toks.append('X %d' % cm['id'])
-
-            def f():
-                o = axes[cm['id']].copy() if cm['how'] == 'copy' else t.UniformTime(axes[cm['id']])
-                axes.append(o)
-                sh.axes.append(dict(sh.axes[cm['id']]))
-                return 'ok'
-            out = call(f)
+            obj, out = attempt(lambda: axes[cm['id']].copy() if cm['how'] == 'copy' else t.UniformTime(axes[cm['id']]))
+            axes.append(obj)
+            sh.axes.append(dict(sh.axes[cm['id']]))
         elif c in ('IA', 'IT'):
             ch = cm['ch']
             if c == 'IA':
-                pid = cm['id']
-                toks.append('IA %d %s' % (pid, uchange_tok(ch).split(' ', 2)[2]))
-                unit = sh.axes[pid]['unit']
+                tid = cm['id']
+                toks.append('IA %d %s' % (tid, uchange_tok(ch).split(' ', 2)[2]))
+                tgt = axes[tid]
             else:
                 sid = cm['sid']
                 toks.append('IT %d %s' % (sid, uchange_tok(ch).split(' ', 1)[1]))
-                unit = sh.axis_of(sid)['unit']
+                tid, tgt = read_time(sid)
+            unit = sh.axes[tid]['unit']
 
             def f():
-                if c == 'IA':
-                    tgt, p = axes[pid], pid
-                    iops[ch['c']](tgt, uchange_operand(ch, unit))
+                x = uchange_operand(ch, unit)
+                if c == 'IT' and ch['route'] == 'attr':
+                    series[sid].time = iops[ch['c']](series[sid].time, x)
                 else:
-                    p, tgt = read_time(sid)
-                    x = uchange_operand(ch, unit)
-                    if ch['route'] == 'attr':
-                        series[sid].time = iops[ch['c']](series[sid].time, x)
-                    else:
-                        iops[ch['c']](tgt, x)
+                    iops[ch['c']](tgt, x)
                 return 'ok ' + _u_tok(tgt)
-            if c == 'IT':
-                p_now, _ = sh.time_id(sid) if sh.series[sid]['time'] is not None else (None, None)
-            tid = pid if c == 'IA' else None
-            out = call(f)
-            tid = pid if c == 'IA' else sh.series[cm['sid']]['time']
-            if tid is not None:
-                res = expect_uchange(sh.axes[tid], ch)
-                if res[0] == 'ok':
-                    sh.axes[tid] = res[1]
-                    rec['want'] = 'ok U:%s:%d:%d:%d:%d' % (res[1]['unit'], res[1]['t0'], res[1]['dt'], res[1]['n'], res[1]['n'] * res[1]['dt'])
-                else:
-                    rec['want'] = 'err ' + res[1]
+            out = 'err missing-object' if tgt is None else call(f)
+            res = expect_uchange(sh.axes[tid], ch)
+            if res[0] == 'ok':
+                sh.axes[tid] = res[1]
+                rec['want'] = 'ok ' + utok(res[1])
+            else:
+                rec['want'] = 'err ' + res[1]
         elif c == 'L':
             sid = cm['sid']
             cont = {'axis': dict(sh.axis_of(sid)), 'data': sh.series[sid]['data']}
             sm = dict(cont, **cm['look'])
             sm.update(kind='series', share={'obj': 'S%d' % sid})
-            pool = {'S%d' % sid: series[sid]} if sid < len(series) else {}
-            if sid >= len(series):
-                out = 'err IndexError'
+            probe = run_case(clean_step(sm))          # (a fresh twin; also gives the tokens of the line)
+            if probe is None:
+                return None
+            lt = probe.line.split(' ')[1:]
+            toks.append('L %d ' % sid + ' '.join([lt[0]] + lt[4:]))
+            if series[sid] is None:
+                out = 'err missing-object'
             else:
-                cc = run_case(sm, pool)
+                cc = run_case(sm, {'S%d' % sid: series[sid]})
                 if cc is None:
                     return None
-                sh.time_id(sid)
-                if len(axes) < len(sh.axes):
-                    axes.append(series[sid].time)
+                read_time(sid)
                 sm['_impl'], sm['_line'], sm['_clause'] = cc.impl, cc.line, cc.clause
-                lt = cc.line.split(' ')[1:]
-                toks.append('L %d ' % sid + ' '.join([lt[0]] + lt[4:]))
                 out = cc.impl
-                fresh = run_case(clean_step(sm))
-                rec.update(look=sm, fresh=None if fresh is None else fresh.impl)
+                rec.update(look=sm, fresh=probe.impl)
         else:
             raise ValueError(c)
         if out.startswith('err') and c != 'L':
@@ -1776,8 +1766,8 @@ def run_share(m):
         trace.append(rec)
     # identities: which axis object every series holds (position of the first registered object that IS it)
     ids = []
-    for i, so in enumerate(series):
-        o = so.__dict__.get('time')
+    for so in series:
+        o = None if so is None else so.__dict__.get('time')
         ids.append('-' if o is None else str(next((j for j, a in enumerate(axes) if a is o), 'x')))
     outs.append('ids ' + (','.join(ids) if ids else '-'))
     m['_trace'] = trace
